@@ -168,6 +168,8 @@ def run_check(prop, tier, seed, repo, jobfilter=None, procs=None):
             "samples": samples or [{"note": "no path samples"}],
             "functions_under_contract": runner.source_hashes(sorted(funcs), repo),
             "jobs": len(results), "paths": paths, "solver_queries": queries, "solver_s": round(solver_s, 2),
+            "jobs_reused_from_content_addressed_cache": sum(1 for r in results if r.get("cached")),
+            "jobs_wall_s_sum": round(sum(r.get("wall_s", 0) for r in results), 1),
             "backends": {"z3-solver (python API)": discharged},
             "failed_obligations": [{"job": r["job"], "obligation": ob["name"], "status": ob["status"], "detail": (ob.get("detail") or "")[:300]} for r, ob in violations],
             "known_findings_hit": [kf["what"] for _, _, kf in known_hits],
